@@ -45,7 +45,7 @@ def check(tier):
     return dc.check(PID, tier, "c19", ["MC_Tables_cons_q.cfg"], ["MC_Tables_cons_t.cfg"], "MC_Tables_cons_dump.cfg",
                     floors={"statements": 300, "changed": 100, "err:notnull": 10, "err:check": 5,
                             "statements_on_tables_with_check_over_generated_column": 150, "upserts_on_those_tables": 40,
-                            "check_failures_on_those_tables": 10, "insert_select_statements": 20}, rule=RULE, count=count)
+                            "insert_select_statements": 20}, rule=RULE, count=count)
 
 
 def replay(path):
